@@ -10,6 +10,46 @@ ALL = BE + LE
 CANON = {"32000": "6502", "8086": "Z80", "SDL": "Windows", "MacOSX": "Windows"}
 
 
+def gen_random_programs(tabs, rnd, quick):
+    """Seeded random well-formed programs: many lines, each a random mixture of keyword tokens (incl. two-byte extension tokens), line-number
+    references, ASCII, and strings holding arbitrary bytes; loops kept properly nested so that the requirement fixes the indentation."""
+    n = 150 if quick else 3000
+    for i in range(n):
+        d = ALL[i % len(ALL)]
+        tab = tabs[CANON.get(d, d)]
+        kws = [b for b in range(1, 256) if tab["base"][b][0] == "kw" and tab["base"][b][1] not in ("FOR", "NEXT", "REPEAT", "UNTIL")]
+        ext = [(intro, b) for intro, which in ((0xC6, "c6"), (0xC7, "c7"), (0xC8, "c8")) if tab["base"][intro][0] == which
+               for b in range(256) if tab[which][b][0] == "kw"]
+        kF, kN, kR, kU = (kwbyte(tab, k) for k in ("FOR", "NEXT", "REPEAT", "UNTIL"))
+        lines, depth, num = [], [], 0
+        for _ in range(rnd.randint(1, 40)):
+            num += rnd.randint(1, 400)
+            body = []
+            for _ in range(rnd.randint(0, 12)):
+                k = rnd.randrange(9)
+                if k == 0 and len(body) < 200:
+                    body += [34] + [rnd.choice([x for x in range(1, 256) if x != 34]) for _ in range(rnd.randint(0, 8))] + [34]
+                elif k == 1:
+                    body += list(enc_target(rnd.randrange(65536)))
+                elif k == 2 and ext:
+                    body += list(rnd.choice(ext))
+                elif k == 3 and len(depth) < 12:
+                    t_ = rnd.choice("FR")
+                    depth.append(t_)
+                    body += [kF if t_ == "F" else kR, 73]
+                elif k == 4 and depth:
+                    t_ = depth.pop()
+                    body += [kN if t_ == "F" else kU, 73]
+                elif k in (5, 6):
+                    body.append(rnd.choice(kws))
+                else:
+                    body.append(rnd.choice([32, 58, 61, 44, 65 + rnd.randrange(26), 48 + rnd.randrange(10)]))
+            if len(body) > 240:
+                body = body[:0]
+            lines.append((min(num, 65279), body))
+        yield ("rand-%d" % i, d, rnd.randrange(8), prog(d, lines))
+
+
 def tables():
     tabs, alias = gen_tokens.emit(os.path.join(common.SPEC, "BasicTokens.tla"))
     return tabs
